@@ -8,6 +8,7 @@ from hypothesis import strategies as st
 
 from .. import gens, refs
 from ..runner import Sub
+from . import probes
 from .common import L, Checker, arr
 
 PROPERTY_ID = "C18"
@@ -16,6 +17,7 @@ RULE = ("revolute / prismatic unit twists in 3D (axis direction x length 1e-3..1
         "of the axis fixed by exp(theta S), rotation = reference Rodrigues(unit axis, theta), prismatic = translation "
         "theta*unit direction, pitch/pole/line/theta()/isprismatic, se(n) form, inverse and scalar multiples consistent "
         "with exp.  Non-trivial: axis not a coordinate axis, q != 0, theta != 0.")
+RULE = RULE + probes.RULE_TEXT + (probes.AUG_TEXT if PROPERTY_ID in probes.AUG_PROPS else "")
 ASSUMPTIONS = ["tolerance 1e-9*max(1,|q|)", "pitch argument of Revolute, isrevolute and isunit are not in the statement"]
 
 TWO_PI = 2 * math.pi
@@ -63,6 +65,8 @@ def _pose(c, site, X, cls, n=1):
 
 
 def check_case(case):
+    if case.get("kind") in ("hist", "aug"):
+        return probes.run(case, PROPERTY_ID)
     return {"rev3": _rev3, "pris3": _pris3, "rev2": _rev2, "pris2": _pris2}[case["kind"]](case)
 
 
@@ -367,6 +371,8 @@ def _pris2(case):
 
 
 def classify(case):
+    if case.get("kind") in ("hist", "aug"):
+        return probes.classify(case)
     k = case["kind"]
     lab = {"kind:" + k: True}
     th = case["theta"]
@@ -390,4 +396,5 @@ def subchecks(tier):
         Sub("pris3", strategy=s_pris3(), n=(400, 8000), shards=(2, 8)),
         Sub("rev2", strategy=s_rev2(), n=(400, 8000), shards=(4, 8)),
         Sub("pris2", strategy=s_pris2(), n=(400, 8000), shards=(2, 4)),
+        *probes.subs(PROPERTY_ID),
     ]
